@@ -738,6 +738,10 @@ theorem spec_handleChallenge (c : Cfg) (src : Addr) (nonce cd enrSeq : Nat)
   · wpc spec_removeExpected src
     rintro _ st2 ⟨h2, -⟩
     exact spec_failRequest c call0 _ true st2 h2
+  split
+  · wpc spec_removeExpected src
+    rintro _ st2 ⟨h2, -⟩
+    exact spec_failRequest c call0 _ true st2 h2
   wpc spec_freshEph c
   rintro eph st2 ⟨h2, -⟩
   wpc spec_freshNonce c
